@@ -5,7 +5,8 @@
      i = construction index of the feed `Importer.match` returns (none = MissingError); per feed of the pool (in
      construction order) whether its matcher accepts the statement and whether its parser resolvesSkeleton all sources
    (c09seq (<statement>*) <pool>) → (ok (<(some i)|none>*))
-     the answers of ONE importer instance to the request history (`matchSeq`, with the lru_cache state)
+     the answers of ONE importer instance to the request history (`matchSeq`, with the lru_cache state; then the same through
+     the bounded LRU table `matchLru` (128 entries) and through one of capacity 1)
    (c09conf <statement> (<member>*) single|multi)
        member = (inst (<src>*)) | (conf <ref> none|((<key> <val>)*) (<src>*)) | (name <ref> none|(…) (<src>*)) (single only:
                 the member is handed to io.Importer as its reference string),  val = (num h) | (text s) | (table ((<key> (num h)|(text s))*))
@@ -20,6 +21,7 @@
 import ForML.Model.Sexp
 import ForML.Model.Dsl
 import ForML.Model.Matcher
+import ForML.Model.MatcherLru
 import ForML.Model.MatcherConf
 import ForML.Model.MatcherParser
 import ForML.Model.MatcherParserFree
@@ -42,10 +44,14 @@ def stepC09 (line : Sexp) : Sexp :=
     | .list [.atom "c09seq", .list stmts, .list slots] =>
       match stmts.mapM Source.ofSexp, slots.mapM Slot.ofSexp with
       | some ss, some pool =>
-        .list [.atom "ok", .list ((matchSeq pool ss).map (fun r =>
+        let wire (rs : List (Except MatchError Nat)) : Sexp := .list (rs.map (fun r =>
           match r with
           | .ok i => Sexp.ofOption Sexp.ofNat (some i)
-          | .error _ => Sexp.ofOption Sexp.ofNat none))]
+          | .error _ => Sexp.ofOption Sexp.ofNat none))
+        -- round 5: also through the bounded LRU table, at the code's capacity (128) and at capacity 1 (every second
+        -- distinct statement evicts, so the eviction path of the model runs on every history)
+        .list [.atom "ok", wire (matchSeq pool ss), wire (matchLru pool ss),
+          wire (lruSeq 1 id (importerMatch pool) ss)]
       | _, _ => .atom "bad-op"
     | .list [.atom "c09conf", stmt, .list ms, .atom route] =>
       match Source.ofSexp stmt, ms.mapM Arg.ofSexp with
